@@ -166,7 +166,14 @@ func (fr *frame) externalModel(name string, cc *ssa.CallCommon, args []T, st *St
 		for _, p := range mutatingExternal {
 			if strings.HasPrefix(name, p) {
 				c.Defaults[name+" (havoc heap)"] = true
-				c.havocAll(st)
+				if strings.HasPrefix(name, "reflect.(Value).Call") || strings.HasPrefix(name, "sync.(*Once).Do") {
+					// runs a function value: may re-enter the repository
+					c.havocAll(st)
+				} else {
+					// external code that does not call back: the ghost call
+					// counters of in-repo functions survive
+					c.havocAllCallees(st, []*ssa.CallCommon{cc})
+				}
 				return fr.freshResults(st, cc.Signature(), "ext"), true
 			}
 		}
@@ -233,6 +240,24 @@ func (c *Ctx) tracked(name string) bool {
 // name-resolved interface invokes inside the repository) a function whose
 // short name is target? Conservative: unknown dynamic calls reach everything.
 func (c *Ctx) mayReach(cc *ssa.CallCommon, target string) bool {
+	// function values handed to the callee run inside it
+	for _, a := range cc.Args {
+		if _, isFunc := under(a.Type()).(*types.Signature); !isFunc {
+			continue
+		}
+		fns := funcTargets(a, 0)
+		if fns == nil {
+			if k, ok := a.(*ssa.Const); ok && k.IsNil() {
+				continue
+			}
+			return true
+		}
+		for _, f := range fns {
+			if ShortName(f) == target || c.fnMayReach(f, target, map[*ssa.Function]bool{}) {
+				return true
+			}
+		}
+	}
 	if cc.IsInvoke() {
 		// the invoke itself is counted by traceCall: only what the
 		// implementations do matters (marker seen[nil])
@@ -240,6 +265,16 @@ func (c *Ctx) mayReach(cc *ssa.CallCommon, target string) bool {
 	}
 	callee := cc.StaticCallee()
 	if callee == nil {
+		// a function value that is, on every path, one of a few closures or
+		// functions named in this function (var f func(..); if .. { f = func.. } else { f = func.. })
+		if fns := funcTargets(cc.Value, 0); len(fns) > 0 {
+			for _, f := range fns {
+				if ShortName(f) == target || c.fnMayReach(f, target, map[*ssa.Function]bool{}) {
+					return true
+				}
+			}
+			return false
+		}
 		if d, ok := c.closures[T{}.S]; ok && d != nil {
 			callee = d.fn
 		} else {
@@ -518,4 +553,37 @@ func variadicElems(v ssa.Value) ([]ssa.Value, bool) {
 		}
 	}
 	return out, true
+}
+
+// funcTargets: the functions a func-typed value can denote, when that is
+// syntactically evident (closure literals, named functions, phis of those);
+// nil when unknown.
+func funcTargets(v ssa.Value, depth int) []*ssa.Function {
+	if depth > 6 {
+		return nil
+	}
+	switch x := v.(type) {
+	case *ssa.Function:
+		return []*ssa.Function{x}
+	case *ssa.MakeClosure:
+		if f, ok := x.Fn.(*ssa.Function); ok {
+			return []*ssa.Function{f}
+		}
+	case *ssa.ChangeType:
+		return funcTargets(x.X, depth+1)
+	case *ssa.Phi:
+		var out []*ssa.Function
+		for _, e := range x.Edges {
+			if k, ok := e.(*ssa.Const); ok && k.IsNil() {
+				continue
+			}
+			fs := funcTargets(e, depth+1)
+			if fs == nil {
+				return nil
+			}
+			out = append(out, fs...)
+		}
+		return out
+	}
+	return nil
 }
